@@ -4,25 +4,29 @@
 set -u
 wt=$1; sd=$2; crate=${3:-scylla}
 cd "$wt" || exit 2
-git checkout -q -- . && git clean -fdq -e target
-demo_cmd=$(python3 -c "import json;print(json.load(open('$sd/meta.json'))['demo_cmd'])")
+clean() { git checkout -q -- . && git clean -fdq -e target; }
+clean
+demo_cmd=$(python3 -c "import json;print(json.load(open('$sd/meta.json'))['demo_cmd'].split('  #')[0])")
 echo "demo_cmd: $demo_cmd"
 base=/tmp/seed/baseline-$crate.txt
 if [ ! -f $base ]; then
   cargo test --offline -p $crate --lib 2>&1 | grep -E "^test \S+ \.\.\. FAILED" | sort > $base
   echo "baseline failing: $(wc -l < $base)"
 fi
-if [ -f $sd/demo.diff ]; then git apply $sd/demo.diff || { echo "DEMO DOES NOT APPLY"; exit 3; }; fi
+pre() { if [ -f $sd/demo.diff ] && ! echo "$demo_cmd" | grep -q "demo.diff"; then git apply $sd/demo.diff || echo "DEMO DOES NOT APPLY"; fi; }
+pre
 ( eval "$demo_cmd" ) > /tmp/seed/v.out 2>&1; rc1=$?
 echo "demo on HEAD: rc=$rc1 (expect 0)"
+clean
 git apply $sd/patch.diff || { echo "PATCH DOES NOT APPLY"; exit 3; }
+pre
 ( eval "$demo_cmd" ) > /tmp/seed/v2.out 2>&1; rc2=$?
 echo "demo with patch: rc=$rc2 (expect != 0)"
-# unit tests with patch only
-git checkout -q -- . && git clean -fdq -e target
+grep -E "^test .*(FAILED|ok)$|panicked|assert" /tmp/seed/v2.out | head -5
+clean
 git apply $sd/patch.diff
 cargo test --offline -p $crate --lib 2>&1 | grep -E "^test \S+ \.\.\. FAILED" | sort > /tmp/seed/withpatch.txt
 if diff -q $base /tmp/seed/withpatch.txt >/dev/null; then echo "unit tests: same failing set as baseline ($(wc -l < $base))"; ut=0; else echo "unit tests DIFFER:"; diff $base /tmp/seed/withpatch.txt | head; ut=1; fi
 RUSTFLAGS="--cfg scylla_verif" cargo check --offline -q -p $crate 2>&1 | grep -E "^error" | head -3
-git checkout -q -- . && git clean -fdq -e target
+clean
 if [ $rc1 -eq 0 ] && [ $rc2 -ne 0 ] && [ $ut -eq 0 ]; then echo "SEED-CONFIRMED"; exit 0; else echo "SEED-REJECTED"; exit 1; fi
